@@ -11,6 +11,7 @@
    hypothesis (every function of the model is shown equivariant, incl. the two depth-first traversals and the echelon
    quantities). On the implementation the same clause is exercised by relabelled-case and reindex_nodes runs. *)
 From SV Require Import Sim.Model Sim.Inv_base Sim.Policy_thms Sim.Obs Sim.Example Sim.Relabel.
+From SV Require Import Sim2.State2 Sim2.Model2 Sim2.Seq2 Sim2.Main2b.
 
 Theorem C06_step_batch : forall NW a b s, run_from NW s (a ++ b) = run_from NW s a ++ run_from NW (state_after NW s a) b.
 Proof. exact step_batch. Qed.
@@ -57,9 +58,24 @@ Example C06_relabel_nonvacuous :
 Proof. split; [exact ex_sw_sw|]. split; [vm_compute; reflexivity|]. split; [vm_compute; reflexivity|]. split; [vm_compute; reflexivity|].
   split; [exact ex_net_sw_renumbers|exact ex_inputs_sw_renumbers]. Qed.
 
+(* ---- the multi-product model (Sim2/Model2.v) has the same reproducibility structure (the property itself speaks of single-product
+   networks; this covers the code path the multi-product simulations take): period by period = batch for every split, one record per
+   period, the past does not depend on later inputs ---- *)
+Theorem C06_multi_step_batch : forall NW a b s, run_from2 NW s (a ++ b) = run_from2 NW s a ++ run_from2 NW (state_after2 NW s a) b.
+Proof. exact step_batch2. Qed.
+Theorem C06_multi_one_record_per_period : forall NW inputs s, length (run_from2 NW s inputs) = length inputs.
+Proof. exact run_length2. Qed.
+Theorem C06_multi_past_independent_of_future : forall NW a b s, firstn (length a) (run_from2 NW s (a ++ b)) = run_from2 NW s a.
+Proof. exact run_prefix2. Qed.
+
 Example C06_nonvacuous : length (run ex_net ex_inputs) = 8%nat /\
   run ex_net ex_inputs = run ex_net (firstn 3 ex_inputs) ++ run_from ex_net (state_after ex_net (init_state ex_net) (firstn 3 ex_inputs)) (skipn 3 ex_inputs).
 Proof. split; [vm_compute; reflexivity|]. unfold run. rewrite <- step_batch. rewrite firstn_skipn. reflexivity. Qed.
+
+Example C06_multi_nonvacuous : length (run2 Main2b.exB2_net Main2b.exB2_inputs) = length Main2b.exB2_inputs /\ (2 <= length Main2b.exB2_inputs)%nat /\
+  run2 Main2b.exB2_net Main2b.exB2_inputs = run2 Main2b.exB2_net (firstn 2 Main2b.exB2_inputs)
+     ++ run_from2 Main2b.exB2_net (state_after2 Main2b.exB2_net (init_state2 Main2b.exB2_net) (firstn 2 Main2b.exB2_inputs)) (skipn 2 Main2b.exB2_inputs).
+Proof. split; [apply run_length2|split; [vm_compute; lia|]]. unfold run2. rewrite <- step_batch2. rewrite firstn_skipn. reflexivity. Qed.
 
 Print Assumptions C06_step_batch.
 Print Assumptions C06_one_record_per_period.
@@ -69,3 +85,6 @@ Print Assumptions C06_relabel_run.
 Print Assumptions C06_relabel_every_state_variable.
 Print Assumptions C06_relabel_total_cost.
 Print Assumptions C06_relabel_explicit.
+Print Assumptions C06_multi_step_batch.
+Print Assumptions C06_multi_one_record_per_period.
+Print Assumptions C06_multi_past_independent_of_future.
